@@ -4056,3 +4056,67 @@ func sharedCharRanges(c *an.Ctx, rule string, prefixes ...string) (examined int)
 	}
 	return examined
 }
+
+// sharedArrayPoolPut is the rule for pools of fixed-size arrays that are fed
+// with slices converted to array pointers: (*[N]T)(s[:N]) is a window of N
+// elements into s's backing array.  Unless s's capacity is *exactly* N, the
+// window can be part of a larger buffer, and two slices of one buffer (for
+// example the address hints that a wire decoder cuts out of a single
+// allocation) yield overlapping arrays: the pool then hands the same bytes to
+// two users.  Every such Put must therefore be guarded by cap(s) == N (a
+// comparison with >= admits windows into larger buffers).  Returns the number
+// of Puts of converted slices examined.
+func sharedArrayPoolPut(c *an.Ctx, rule string) (examined int) {
+	for _, fn := range c.AllFns {
+		if fn.Blocks == nil || c.IsTestFile(fn.Pos()) {
+			continue
+		}
+		k := an.FnKey(fn)
+		for _, call := range an.Calls(fn) {
+			if !isPoolPut(call) {
+				continue
+			}
+			args := call.Common().Args
+			conv, ok := args[len(args)-1].(*ssa.SliceToArrayPointer)
+			if !ok {
+				continue
+			}
+			examined++
+			c.Analysed(k)
+			arr, _ := an.Deref(conv.Type()).Underlying().(*types.Array)
+			var src ssa.Value = conv.X
+			if sl, isSl := src.(*ssa.Slice); isSl {
+				src = sl.X
+			}
+			exact := false
+			why := "no capacity test guards the conversion"
+			for _, e := range an.DominatingConds(call.Block()) {
+				bo, isBo := e.If.Cond.(*ssa.BinOp)
+				if !isBo {
+					continue
+				}
+				capCall, isCall := bo.X.(*ssa.Call)
+				kv, isK := an.ConstInt(bo.Y)
+				if !isCall || !isK {
+					continue
+				}
+				b, isB := capCall.Call.Value.(*ssa.Builtin)
+				if !isB || b.Name() != "cap" || capCall.Call.Args[0] != src {
+					continue
+				}
+				switch {
+				case bo.Op == token.EQL && e.Branch && arr != nil && kv == arr.Len():
+					exact = true
+				case bo.Op == token.NEQ && !e.Branch && arr != nil && kv == arr.Len():
+					exact = true
+				default:
+					why = fmt.Sprintf("the guard is cap %s %d", bo.Op, kv)
+				}
+			}
+			c.Check(exact, rule, k+" pools only whole arrays", call.Pos(),
+				"the converted slice's capacity is tested for equality with the array length",
+				"a slice is converted to an array pointer and pooled without an exact capacity test ("+why+"): slices cut out of one larger buffer give overlapping arrays, which the pool then hands to two users at once")
+		}
+	}
+	return examined
+}
